@@ -21,7 +21,7 @@ RULE = ("all 9,331 index lists of length 0..5 over {0,1,2^31-1,2^31,2^31+1,2^32-
 FAULTS = ["-1", "-1'", "-1h", "-2147483648'", "-2147483647'", "-2147483649'", "4294967296", "2147483648'", "4294967295h", "4294967296'",
           "x", "0x1f", "0b1", "1.0", "1e3", "1''", "1'h", "'", "h", "None", ""]
 LENIENT = ["+1", " 1", "1 ", "1_0", "١", "01", "+1'", "1 '"]
-BASES = ["m/0/1'/2", "m/44'/0'/0'/0/5", "M/0/1", "m/1"]
+BASES = ["m/0/1'/2", "m/44'/0'/0'/0/5", "M/0/1", "m/1", "m/0/1'/2/3/4/5/6'", "M/0/1/2/3/4/5"]
 ROOTS_BAD = ["", "x", "n", "mm", "m'", "/m", "m ", " m"]
 
 MASTER = {"k": 0x1F1E1D1C1B1A191817161514131211100F0E0D0C0B0A09080706050403020100 % hd.N, "chain": "5a" * 32}
